@@ -98,7 +98,7 @@ func RunDuplex(t *testing.T, sc *DuplexScenario) (recs []interface{}, failure st
 			outs, evs, raws := r.drain()
 			steps[i]++
 			logs[i] = append(logs[i], StepObs{K: "step", ID: ids[i], I: steps[i], A: a, T: t0, Outs: outs,
-				Logged: r.S.IsLogged(), Ctx: r.S.Context().Err() != nil, HCtx: r.H.Context().Err() != nil,
+				Logged: r.S.IsLogged(), Ctx: r.Ctx0.Err() != nil, HCtx: r.H.Context().Err() != nil,
 				Events: evs, Err: callErr, Saves: []int{}})
 			for _, raw := range raws {
 				if sc.DropPct > 0 && rnd.Intn(100) < sc.DropPct {
